@@ -456,7 +456,7 @@ class Buffer(gpp.UGenParameter, gpp.NodeParameter):
         self._start_frame = start_frame
         self._server.addr.send_msg(
             '/b_allocReadChannel', self._bufnum, path, start_frame,
-            frames, *channels, fn.value(completion_msg, self))
+            frames, *(channels or ()), fn.value(completion_msg, self))
 
 
     ### Allocated buffer commands ###
@@ -510,7 +510,7 @@ class Buffer(gpp.UGenParameter, gpp.NodeParameter):
         self._do_on_info = action  # Will not evaluate if cache=False.
         self._server.addr.send_msg(
             '/b_readChannel', self._bufnum, self._path, file_start_frame,
-            frames, buf_start_frame, leave_open, *channels,
+            frames, buf_start_frame, leave_open, *(channels or ()),
             ['/b_query', self._bufnum])
 
     def cue(self, path, start_frame=0, completion_msg=None):
